@@ -16,6 +16,7 @@ import json
 import os
 import signal
 import sys
+import threading
 import time
 
 os.environ["C10_PARENT_PID"] = str(os.getpid())
@@ -31,7 +32,7 @@ dump = open(sys.argv[3], "w")
 W = sc.get("watchdog", 60)
 N, NT = sc["n_jobs"], sc["n_tasks"]
 KIND, HOW = sc["kind"], sc.get("how", "SIGKILL")
-IN_TASK = ("respawn", "mgr_busy", "arg_unpickle", "task_start", "mid_task", "result_pickle", "mid_send", "after_send",
+IN_TASK = ("dispatching", "stubborn", "respawn", "mgr_busy", "arg_unpickle", "task_start", "mid_task", "result_pickle", "mid_send", "after_send",
            "arg_unloadable", "result_garbage")
 
 
@@ -122,14 +123,39 @@ def make_tasks(call_no, victim_pids):
                 fault = "die_when_mgr_busy"
             elif KIND == "respawn":
                 fault = "mid_task"
+            elif KIND == "stubborn":
+                fault, arg = "wait_stubborn", T.Bomb(None, NT - len(sc["victims"]))
+            elif KIND == "dispatching":
+                fault = "die_announced"
             else:
                 fault = KIND
+        elif fault_here and KIND == "stubborn":
+            fault = "stubborn"
         if fault_here and KIND == "mgr_busy" and i == sc.get("slow", 0):
             fault = "slow_result"
         if call_no == 1 and KIND == "startup_reduce" and i == 0:
             arg = T.KillOnPickle(victim_pids, HOW, i)
         arm = call_no == 0 and T.exit_status(HOW) is not None and KIND in BETWEEN_KINDS
         items.append(delayed(T.task)(i, fault, HOW, arg, sc.get("sleep", 0.0), arm))
+    if call_no == 1 and KIND == "dispatching":
+        def slow_gen():
+            # the caller is still DISPATCHING (inside dispatch_one_batch, Parallel._lock held) when the victim dies
+            # and while the manager thread fails the futures
+            for it in items[:2]:
+                yield it
+            t = time.time()
+            while time.time() - t < 20:
+                try:
+                    if dead(int(open("victim").read())):
+                        break
+                except (OSError, ValueError):
+                    pass
+                time.sleep(0.01)
+            time.sleep(1.0)
+            for it in items[2:]:
+                time.sleep(0.02)
+                yield it
+        return slow_gen()
     if call_no == 1 and KIND == "startup_gen":
         def gen():
             kill_pids(victim_pids)          # the first next(): configure() is done, nothing submitted yet
@@ -176,8 +202,68 @@ def mgr_alive(e):
     return t is not None and t.is_alive()
 
 
+PROBE = {"cb_under_lock": 0, "callbacks": 0, "installed": False}
+
+
+class _OwnerLock:
+    """shutdown_lock wrapped so that the owning thread is known"""
+
+    def __init__(self, real):
+        self.real = real
+        self.owner = None
+
+    def acquire(self, *a, **k):
+        r = self.real.acquire(*a, **k)
+        if r:
+            self.owner = threading.get_ident()
+        return r
+
+    def release(self):
+        self.owner = None
+        self.real.release()
+
+    def __enter__(self):
+        self.acquire()
+        return self
+
+    def __exit__(self, *a):
+        self.release()
+
+    def locked(self):
+        return self.real.locked()
+
+
+def install_lock_probe():
+    """lock order of M10c: the done-callbacks (which take Parallel._lock) must never run in a thread that holds the
+    executor's shutdown_lock (a dispatching caller holds Parallel._lock and takes shutdown_lock in submit)"""
+    import joblib.parallel as jp
+    e = reusable_executor._executor
+    proxy = _OwnerLock(e._shutdown_lock)
+    e._shutdown_lock = proxy
+    e._flags.shutdown_lock = proxy
+    if e._executor_manager_thread is not None:
+        e._executor_manager_thread.shutdown_lock = proxy
+    e._call_queue.shutdown_lock = proxy
+    if not PROBE["installed"]:
+        orig = jp.BatchCompletionCallBack.__call__
+
+        def probed(self, *a, **k):
+            PROBE["callbacks"] += 1
+            ex = reusable_executor._executor
+            lk = getattr(ex, "_shutdown_lock", None) if ex is not None else None
+            for cand in (proxy, lk):
+                if isinstance(cand, _OwnerLock) and cand.owner == threading.get_ident():
+                    PROBE["cb_under_lock"] += 1
+                    break
+            return orig(self, *a, **k)
+        jp.BatchCompletionCallBack.__call__ = probed
+        PROBE["installed"] = True
+
+
 def scenario(par):
     one_call(par, 0, [])
+    if sc.get("probe"):
+        install_lock_probe()
     st = exec_state()
     if T.exit_status(HOW) is not None and KIND in BETWEEN_KINDS and LAST.get("pids"):
         st = dict(st, pids=[p for p in st["pids"] if p in LAST["pids"]] or st["pids"])
@@ -213,6 +299,17 @@ def scenario(par):
         HOOK["armed"] = True
         process_executor._WorkItem = _hooked_work_item
     one_call(par, 1, victim_pids)
+    if sc.get("probe"):
+        emit({"probe": {k: PROBE[k] for k in ("cb_under_lock", "callbacks")}})
+    if KIND == "stubborn":
+        pids = []
+        for x in os.listdir("."):
+            if x.startswith("stub_") and not x.endswith(".tmp"):
+                pids.append(int(open(x).read()))
+        t = time.time()
+        while time.time() - t < 5 and not all(dead(p) for p in pids):
+            time.sleep(0.01)
+        emit({"stubborn_alive": [p for p in pids if not dead(p)], "stubborn_seen": len(pids)})
     if KIND == "submit_window":
         process_executor._WorkItem = _orig_work_item
         emit({"saw_broken_in_submit": HOOK["saw_broken_in_submit"], "hook_fired": not HOOK["armed"]})
@@ -235,6 +332,10 @@ elif sc.get("sigchld") == "reaper":
     threading.Thread(target=_reaper, daemon=True).start()
 
 kw = dict(n_jobs=N)
+if sc.get("pre_dispatch"):
+    kw["pre_dispatch"] = sc["pre_dispatch"]
+if KIND == "stubborn":
+    kw["batch_size"] = 1
 if KIND == "mgr_busy":
     kw["batch_size"] = 1      # the slow result and the victim must travel in different batches
 if sc.get("gen"):
